@@ -10,7 +10,7 @@ PYTHONPATH=$wt timeout 600 /venv/bin/python $demo >/dev/null 2>&1; echo "== demo
 git diff > /tmp/try_wt_$$.patch; git apply -R /tmp/try_wt_$$.patch; PYTHONPATH=$wt timeout 600 /venv/bin/python $demo >/dev/null 2>&1; echo "== demo without change rc=$?"; git apply /tmp/try_wt_$$.patch; rm -f /tmp/try_wt_$$.patch
 cd /verif
 for c in "$@"; do
-  out=$(PYTHONPATH=$wt VERIF_NOCONFIRM=${NOCONFIRM:-0} timeout 3000 ./check "$c" --tier ${TIER:-quick} 2>&1); rc=$?
+  out=$(PYTHONPATH=$wt VERIF_EVIDENCE_DIR=/dev/shm/try_evidence VERIF_NOCONFIRM=${NOCONFIRM:-0} timeout 3000 ./check "$c" --tier ${TIER:-quick} 2>&1); rc=$?
   echo "== $c rc=$rc; $(echo "$out" | tail -1)"
   echo "$out" | grep -A2 '^VIOLATION' | grep -v '^--' | cut -c1-300 | head -6
 done
